@@ -299,15 +299,24 @@ def tbProject (O : AtlasOracle σ S U C D) (s : σ) (x : S) : Option (Bool × S 
       some (v.1, p.1.2, v.2)
     else some (false, p.1.2, p.2)
 
-/-- `TangentBundleStateSpace::geodesicInterpolate(geodesic, t)` -/
+/-- `TangentBundleStateSpace::geodesicInterpolate(geodesic, t)`.  `project` works **in place** on
+the picked list element (`psi` writes its iterate into it whether or not it converges), and the
+failure path returns `geodesic[0]` — which *is* that overwritten element when the pick was index 0
+(a one-element list, or total length ≤ epsilon).  `r.2.1` is what `psi` left behind. -/
 def tbPick (A : Arith D) (Am : Ambient S D) (O : AtlasOracle σ S U C D) (s : σ) (g : List S) (t : D) :
     Option (S × σ) :=
-  match geodesicInterpolate A Am g t with
+  match geodesicInterpolateIdx A Am g t with
   | none => none
-  | some x =>
-    match tbProject O s x with
+  | some i =>
+    match g[i]? with
     | none => none
-    | some r => if r.1 then some (r.2.1, r.2.2) else (g.head?).map (fun y => (y, r.2.2))
+    | some x =>
+      match tbProject O s x with
+      | none => none
+      | some r =>
+        if r.1 then some (r.2.1, r.2.2)
+        else if i = 0 then some (r.2.1, r.2.2)          -- geodesic[0] was overwritten by the failed projection
+        else (g.head?).map (fun y => (y, r.2.2))
 
 /-- `ConstrainedStateSpace::interpolate` on a TangentBundle space (virtual dispatch to the two
 functions above). -/
